@@ -98,6 +98,9 @@ class guard:
         if issubclass(et, (Inconclusive, HarnessError, KeyboardInterrupt,
                            SystemExit, GeneratorExit)):
             return False
+        if issubclass(et, MemoryError):
+            # memory exhausted on a tiny input: same status as the watchdog
+            raise Inconclusive("memory limit")
         if issubclass(et, RecursionError) and RecursionError not in self.allowed:
             # deep recursion in library code on a tiny input is a failure of
             # the library, deep recursion in the harness is not expected
@@ -122,7 +125,9 @@ class watchdog:
 
     def __enter__(self):
         self.old = signal.signal(signal.SIGALRM, self._handler)
-        signal.setitimer(signal.ITIMER_REAL, self.seconds)
+        # repeated alarms: an exception raised inside a gc callback or a __del__ is swallowed by
+        # the interpreter, the next alarm gets another chance
+        signal.setitimer(signal.ITIMER_REAL, self.seconds, 0.25)
         return self
 
     def __exit__(self, et, ev, tb):
